@@ -130,11 +130,38 @@ func (m *Map) Range(f func(k, v any) bool) {
 	}
 }
 
-var OnceFunc = sync.OnceFunc
+// OnceFunc / OnceValue / OnceValues on top of the controlled Once (a second caller blocks
+// at a scheduling point, not in the runtime). A panic in f is re-raised for every caller.
+func OnceFunc(f func()) func() {
+	var o Once
+	var pv any
+	var panicked bool
+	return func() {
+		o.Do(func() {
+			defer func() {
+				if r := recover(); r != nil {
+					pv, panicked = r, true
+				}
+			}()
+			f()
+		})
+		if panicked {
+			panic(pv)
+		}
+	}
+}
 
-func OnceValue[T any](f func() T) func() T { return sync.OnceValue(f) }
+func OnceValue[T any](f func() T) func() T {
+	var v T
+	g := OnceFunc(func() { v = f() })
+	return func() T { g(); return v }
+}
+
 func OnceValues[T1, T2 any](f func() (T1, T2)) func() (T1, T2) {
-	return sync.OnceValues(f)
+	var v1 T1
+	var v2 T2
+	g := OnceFunc(func() { v1, v2 = f() })
+	return func() (T1, T2) { g(); return v1, v2 }
 }
 
 // FatalPanic is the panic value used where the real primitive would call
